@@ -408,6 +408,10 @@ def make_spec(seed, i, j):
     if sc == 'small_obj' or rng.random() < 0.3:
         params['model.abs_tol'] = float(rng.choice([1e-12, 1e-8, 1e-4, 1e-2]))
         params['model.rel_tol'] = float(rng.choice([1e-20, 1e-10, 1e-4, 1e-2]))
+    if sc == 'rhoend' and rng.random() < 0.5:
+        # rho reductions with a legal but extreme factor (alpha1 in [0,1]; below 1/250 the reduction must still stop at rhoend)
+        params['tr_radius.alpha1'] = float(rng.choice([1e-4, 1e-3, 0.05, 0.5]))
+        spec['rhoend'] = hx(float(rng.choice([1e-8, 1e-6, 1e-4])))
     if sc == 'budget':
         spec['maxfun'] = int(rng.integers(1, 3 * n + 4))
         if rng.random() < 0.5:
